@@ -881,7 +881,7 @@ func cancelProbe(g *ssa.Function) (int, bool) {
 // sameCancelChan: the probe's only receive is on the channel of the send select's cancel arm.
 func sameCancelChan(probe, send *ssa.Select) bool {
 	for _, st := range send.States {
-		if st.Dir == types.RecvOnly && isStructChan(st.Chan) && probe.States[0].Dir == types.RecvOnly && probe.States[0].Chan == st.Chan {
+		if st.Dir == types.RecvOnly && isStructChan(st.Chan) && probe.States[0].Dir == types.RecvOnly && sameChanValue(probe.States[0].Chan, st.Chan) {
 			return true
 		}
 	}
@@ -1068,10 +1068,13 @@ func runTimer(a *Analyzer, r *Results) {
 			fresh, hvOK := false, true
 			if okCl {
 				for _, b := range cl.Args {
-					if b.Op == "make" || (b.Op == "cell" && b.Args[0].Op == "make") {
+					// a channel made by this registration, captured directly or inside a per-registration record
+					if b.Contains(func(t *Term) bool { return t.Op == "make" }) {
 						fresh = true
 					}
-					if b.Op == "field" && len(b.Args) == 1 && b.Args[0].Key() == trg.Key() && (b.Name == "view" || b.Name == "blockHeight" || b.Name == "triggerCancelled") {
+					if b.Contains(func(t *Term) bool {
+						return t.Op == "field" && len(t.Args) == 1 && t.Args[0].Key() == trg.Key() && (t.Name == "view" || t.Name == "blockHeight" || t.Name == "triggerCancelled")
+					}) {
 						hvOK = false
 					}
 				}
@@ -1131,77 +1134,91 @@ func runTimer(a *Analyzer, r *Results) {
 	r.Check("Z7", props("C16", "C19"), "Stop closes the pending trigger's cancel channel exactly when the timer had already fired (timer.Stop() == false), so an expired timer's goroutine is released and a stale trigger is not delivered", "Stop", a.P.Pos(stop.Pos()), closedOK && nClose == 1, fmtf("close sites=%d guarded by !timer.Stop()=%v", nClose, closedOK), "A")
 	// every path of Stop with a non-nil timer calls timer.Stop()
 	// Z6 / T7: the trigger send
-	te := a.P.Func("services/electiontrigger.triggerElections")
-	var sends []*ssa.Select
-	pre := false
-	for _, b := range te.Blocks {
-		for _, in := range b.Instrs {
-			if sel, ok := in.(*ssa.Select); ok {
-				hasSend, hasCancelArm := false, false
-				for _, st := range sel.States {
-					if st.Dir == types.SendOnly {
-						hasSend = true
-					}
-					if st.Dir == types.RecvOnly && isStructChan(st.Chan) {
-						hasCancelArm = true
-					}
-				}
-				if hasSend {
-					sends = append(sends, sel)
-					r.Check("Z6", props("C16", "C19"), "the timer goroutine's send of the trigger is a blocking select against the registration's cancel channel (it is abandoned when the registration is stopped or replaced)", "triggerElections", a.P.InstrPos(in), sel.Blocking && hasCancelArm && len(sel.States) == 2, "send select lacks the cancel arm or has a default", "X")
-				} else if hasCancelArm && !sel.Blocking {
-					pre = true
-				}
+	// the function that runs on the timer goroutine and offers the trigger is found by what it does: it is reached from the
+	// function handed to time.AfterFunc and sends an ElectionTrigger (walk through the spawned closure, values only)
+	var sendEffs []*Effect
+	{
+		w := a.NewWalker(func(e *Effect) {
+			if e.Kind == "send" && e.VType == "interfaces.ElectionTrigger" {
+				sendEffs = append(sendEffs, e)
 			}
-		}
+		})
+		w.DescendSpawn = true
+		w.Run(reg, nil, nil)
+		r.Undecided = append(r.Undecided, w.Undecided...)
 	}
-	// the pre-check must dominate the send and return when cancelled
-	okPre := false
-	if pre && len(sends) == 1 {
+	if len(sendEffs) == 0 {
+		r.Undecided = append(r.Undecided, "election trigger: no send of an ElectionTrigger reachable from the timer callback (anchor)")
+	}
+	seenTe := map[*ssa.Function]bool{}
+	for _, se := range sendEffs {
+		te := se.Instr.Parent()
+		teName := shortName(te)
+		// T6.hv: the value sent is built from the registration's own (height, view)
+		v := se.Args[0]
+		hv := Field(v, "Hv")
+		okHv := unfreeze(Field(hv, "height")).Key() == hArg.Key() && unfreeze(Field(hv, "view")).Key() == vArg.Key()
+		r.Check("T6.hv", props("C19"), "the trigger carries exactly the (height, view) it was armed for", teName, a.P.InstrPos(se.Instr), okHv, "trigger is "+PP(v), "A")
+		if seenTe[te] {
+			continue
+		}
+		seenTe[te] = true
+		var sends []*ssa.Select
+		pre := false
 		for _, b := range te.Blocks {
 			for _, in := range b.Instrs {
-				if sel, ok := in.(*ssa.Select); ok && !sel.Blocking && sel.Block().Dominates(sends[0].Block()) && len(sel.States) == 1 && sameCancelChan(sel, sends[0]) {
-					arm := selectArmBlock(sel, 0)
-					if arm != nil {
-						// the cancelled arm returns without reaching the send
-						reach := map[*ssa.BasicBlock]bool{}
-						stack := []*ssa.BasicBlock{arm}
-						for len(stack) > 0 {
-							n := stack[len(stack)-1]
-							stack = stack[:len(stack)-1]
-							if reach[n] {
-								continue
-							}
-							reach[n] = true
-							stack = append(stack, n.Succs...)
+				if sel, ok := in.(*ssa.Select); ok {
+					hasSend, hasCancelArm := false, false
+					for _, st := range sel.States {
+						if st.Dir == types.SendOnly {
+							hasSend = true
 						}
-						if !reach[sends[0].Block()] {
-							okPre = true
+						if st.Dir == types.RecvOnly && isStructChan(st.Chan) {
+							hasCancelArm = true
+						}
+					}
+					if hasSend {
+						sends = append(sends, sel)
+						r.Check("Z6", props("C16", "C19"), "the timer goroutine's send of the trigger is a blocking select against the registration's cancel channel (it is abandoned when the registration is stopped or replaced)", teName, a.P.InstrPos(in), sel.Blocking && hasCancelArm && len(sel.States) == 2, "send select lacks the cancel arm or has a default", "X")
+					} else if hasCancelArm && !sel.Blocking {
+						pre = true
+					}
+				}
+			}
+		}
+		// the pre-check must dominate the send and return when cancelled
+		okPre := false
+		if pre && len(sends) == 1 {
+			for _, b := range te.Blocks {
+				for _, in := range b.Instrs {
+					if sel, ok := in.(*ssa.Select); ok && !sel.Blocking && sel.Block().Dominates(sends[0].Block()) && len(sel.States) == 1 && sameCancelChan(sel, sends[0]) {
+						arm := selectArmBlock(sel, 0)
+						if arm != nil {
+							// the cancelled arm returns without reaching the send
+							reach := map[*ssa.BasicBlock]bool{}
+							stack := []*ssa.BasicBlock{arm}
+							for len(stack) > 0 {
+								n := stack[len(stack)-1]
+								stack = stack[:len(stack)-1]
+								if reach[n] {
+									continue
+								}
+								reach[n] = true
+								stack = append(stack, n.Succs...)
+							}
+							if !reach[sends[0].Block()] {
+								okPre = true
+							}
 						}
 					}
 				}
 			}
 		}
-	}
-	if !okPre && len(sends) == 1 {
-		// the same check behind a boolean probe: if cancelled(ch) { return }
-		okPre = probeGuardsSend(te, sends[0])
-	}
-	r.Check("T7", props("C19"), "before sending, the timer goroutine checks the cancel channel without blocking and gives up if the registration was already cancelled (a trigger of a stopped or replaced registration is not delivered even when a reader is waiting)", "triggerElections", a.P.Pos(te.Pos()), okPre, "no dominating non-blocking cancel check that skips the send", "X")
-	// T6b: the trigger's Hv is built from the function's own parameters
-	teffs, und3 := a.effectsOf(funcID(te), nil, false)
-	r.Undecided = append(r.Undecided, und3...)
-	_ = teffs
-	cx := a.NewFCtx(te, a.EntryEnv(te, nil), 0)
-	for _, sel := range sends {
-		for _, st := range sel.States {
-			if st.Dir == types.SendOnly {
-				v := cx.Term(st.Send)
-				hv := Field(v, "Hv")
-				ok := Field(hv, "height").Key() == Root(te.Params[1].Name()).Key() && Field(hv, "view").Key() == Root(te.Params[2].Name()).Key()
-				r.Check("T6.hv", props("C19"), "the trigger carries exactly the (height, view) it was armed for", "triggerElections", a.P.InstrPos(sel), ok, "trigger is "+PP(v), "A")
-			}
+		if !okPre && len(sends) == 1 {
+			// the same check behind a boolean probe: if cancelled(ch) { return }
+			okPre = probeGuardsSend(te, sends[0])
 		}
+		r.Check("T7", props("C19"), "before sending, the timer goroutine checks the cancel channel without blocking and gives up if the registration was already cancelled (a trigger of a stopped or replaced registration is not delivered even when a reader is waiting)", teName, a.P.Pos(te.Pos()), okPre, "no dominating non-blocking cancel check that skips the send", "X")
 	}
 	// T11: RegisterOnElection / Stop are called from the worker side only (never from the main loop or the timer goroutine)
 	for _, m := range []string{"RegisterOnElection", "Stop"} {
@@ -1373,4 +1390,32 @@ func (ig *ingest) startsRound(e *Effect) bool {
 		return false
 	}
 	return reachesFn(ig.a, sc, "services/leanhelixterm.NewLeanHelixTerm", map[*ssa.Function]bool{})
+}
+
+// sameChanValue: the same SSA value, or two loads of the same field of the same (unwritten in between is not needed:
+// the field is a channel fixed at construction of a per-registration object) base, or of the same parameter.
+func sameChanValue(x, y ssa.Value) bool {
+	if x == y {
+		return true
+	}
+	ux, ok1 := x.(*ssa.UnOp)
+	uy, ok2 := y.(*ssa.UnOp)
+	if ok1 && ok2 && ux.Op == token.MUL && uy.Op == token.MUL {
+		fx, ok3 := ux.X.(*ssa.FieldAddr)
+		fy, ok4 := uy.X.(*ssa.FieldAddr)
+		if ok3 && ok4 && fx.Field == fy.Field && fx.X == fy.X {
+			// no store to that field in the function
+			for _, b := range fx.Parent().Blocks {
+				for _, in := range b.Instrs {
+					if st, isSt := in.(*ssa.Store); isSt {
+						if fa, isFA := st.Addr.(*ssa.FieldAddr); isFA && fa.Field == fx.Field && fa.X == fx.X {
+							return false
+						}
+					}
+				}
+			}
+			return true
+		}
+	}
+	return false
 }
